@@ -16,12 +16,14 @@
 #include "mc.h"
 #include "regtab.h"
 
-#define NTABLES 8
+#define NTABLES 9
 #define MAXVALS 12
 
 static struct tab tb;
 static struct tspec spec;
 static RegisterAtom g_init_image[RT_MAXW];
+static bool g_has_fail;
+static uint16_t g_init_flags;
 static int nwords; /* total words of all areas */
 
 static const char *
@@ -80,7 +82,7 @@ make_table(int ti, struct tspec *s)
         s->be = true;
         s->a[0] = (struct aspec){ 0, 6, REG_AF_RW, false, false };
         s->nr = 3;
-        s->r[0] = mkr(REG_TYPE_SINT16, 0, K_MAX, 0, 0x0100, 0xff00 /* -256 */);
+        s->r[0] = mkr(REG_TYPE_SINT16, 0, K_MAX, 0, 0xff00 /* -256 */, 0xfed4 /* -300 */);
         s->r[1] = mkr(REG_TYPE_UINT64, 1, K_MAX, 0, 0x0001000200030004ull, 0x0001000200030004ull);
         s->r[2] = mkr(REG_TYPE_UINT16, 5, K_CB, 0, 0, 0x0002);
         break;
@@ -125,6 +127,15 @@ make_table(int ti, struct tspec *s)
         s->r[0] = mkr(REG_TYPE_SINT16, 0, K_RANGE, 0xff00, 0x0100, 0);
         s->r[1] = mkr(REG_TYPE_FLOAT32, 1, K_MAX, 0, fb(8.0f), fb(-8.0f));
         s->r[2] = mkr(REG_TYPE_SINT32, 3, K_MIN, 0xffff0000u, 0, 5);
+        /* s32 MAX below: see table 3 */
+        break;
+    case 8: /* LE, callback-backed, with an always-fail register: u16 fail, u16 range, u32 fail */
+        s->be = false;
+        s->a[0] = (struct aspec){ 0x20, 4, REG_AF_RW, true, false };
+        s->nr = 3;
+        s->r[0] = mkr(REG_TYPE_UINT16, 0x20, K_FAIL, 0, 0, 0x00aa);
+        s->r[1] = mkr(REG_TYPE_UINT16, 0x21, K_RANGE, 5, 10, 7);
+        s->r[2] = mkr(REG_TYPE_UINT32, 0x22, K_FAIL, 0, 0, 0x00010002);
         break;
     default: /* BE, callback-backed: u64 range alone */
         s->be = true;
@@ -218,6 +229,7 @@ masks(const struct rspec *r, uint64_t out[4])
  * pattern before every operation instead (all clear; all set before sanitise). */
 struct key {
     RegisterAtom w[RT_MAXW];
+    uint16_t flags; /* RegisterTable.flags: public state of the table object that operations may change */
 };
 
 static size_t
@@ -225,6 +237,7 @@ key_from_tab(struct key *k)
 {
     memset(k, 0, sizeof *k);
     flat_snapshot(&tb, k->w);
+    k->flags = tb.t.flags;
     return sizeof *k;
 }
 
@@ -232,6 +245,7 @@ static void
 tab_from_key(const struct key *k)
 {
     flat_restore(&tb, k->w);
+    tb.t.flags = k->flags;
     touched_restore(&tb, 0);
 }
 
@@ -244,8 +258,8 @@ invariant_violation(void)
         unsigned char img[8];
         flat_reg_image(&tb, r, img);
         const uint64_t bits = ref_unimage(spec.r[r].type, img, spec.be);
-        if (spec.r[r].ckind == K_NONE)
-            continue;
+        if (spec.r[r].ckind == K_NONE || spec.r[r].ckind == K_FAIL)
+            continue; /* the invariant of the statement is about min/max/range/callback constraints */
         if (!ref_storable(spec.r[r].type, bits) || !ref_constraint(&spec.r[r], ref_from_bits(spec.r[r].type, bits)))
             return r;
     }
@@ -275,7 +289,7 @@ set_reg_words(RegisterAtom *words, int r, uint64_t bits)
 }
 
 /* ---- operations -------------------------------------------------------------- */
-enum opk { O_SET, O_BITSET, O_BITCLR, O_BLOCK, O_SANITISE };
+enum opk { O_SET, O_BITSET, O_BITCLR, O_BLOCK, O_SANITISE, O_FAULT };
 struct op {
     enum opk k;
     int reg;
@@ -347,6 +361,16 @@ make_ops(void)
                 push_op((struct op){ O_BLOCK, -1, REG_TYPE_INVALID, 0, a, n, 1 + i });
         }
     push_op((struct op){ O_SANITISE, 0, REG_TYPE_INVALID, 0, 0, 0, 0 });
+    /* environment deviations on callback-backed areas: one operation during
+     * which the k-th area callback answers with an I/O error.  pat selects the
+     * operation (0 sanitise, 1 typed set of register 0's default, 2 block
+     * write of the current content, 3 get... via bit_set), addr = 0 read / 1 write
+     * callback, n = k */
+    if (spec.a[0].cb)
+        for (int what = 0; what < 3; ++what)
+            for (uint32_t rw = 0; rw < 2; ++rw)
+                for (uint32_t k = 0; k < 3; ++k)
+                    push_op((struct op){ O_FAULT, 0, REG_TYPE_INVALID, 0, rw, k, what });
 }
 
 static const char *
@@ -364,6 +388,10 @@ op_str(const struct op *o)
             snprintf(b, sizeof b, "block_write(%u,%u,every-register<-value#%d)", o->addr, o->n, o->pat - 1);
         break;
     case O_SANITISE: snprintf(b, sizeof b, "sanitise"); break;
+    case O_FAULT:
+        snprintf(b, sizeof b, "%s while %s callback #%u answers IO_ERROR", o->pat == 0 ? "sanitise" : o->pat == 1 ? "set(reg0,default)" : "block_write(all,current)",
+                 o->addr ? "write" : "read", o->n);
+        break;
     }
     return b;
 }
@@ -495,12 +523,48 @@ do_op(const struct op *o, bool *ok)
         free(buf);
         break;
     }
+    case O_FAULT: {
+        /* an operation during which one area callback fails: the statement says
+         * nothing about its result; it is an environment event whose successor
+         * state is explored (hidden state it leaves behind shows in later,
+         * fault-free operations) */
+        tb.cb_reads = tb.cb_writes = 0;
+        tb.cb_fail_read_at = o->addr == 0 ? (long)o->n : -1;
+        tb.cb_fail_write_at = o->addr == 1 ? (long)o->n : -1;
+        RegisterAccess a;
+        if (o->pat == 0)
+            a = register_sanitise(&tb.t);
+        else if (o->pat == 1) {
+            RegisterValue v;
+            memset(&v, 0, sizeof v);
+            v.type = spec.r[0].type;
+            v.value = spec.r[0].def;
+            a = register_set(&tb.t, 0, v);
+        } else {
+            RegisterAtom *buf = mc_exact_copy(before, spec.a[0].size * sizeof(RegisterAtom));
+            a = register_block_write(&tb.t, spec.a[0].base, spec.a[0].size, buf);
+            free(buf);
+        }
+        const bool hit = (tb.cb_fail_read_at >= 0 && tb.cb_reads > tb.cb_fail_read_at) || (tb.cb_fail_write_at >= 0 && tb.cb_writes > tb.cb_fail_write_at);
+        tb.cb_fail_read_at = tb.cb_fail_write_at = -1;
+        mc_log("-> %s@%u (fault %s)", acc(a.code), a.address, hit ? "reached" : "not reached");
+        outcome = hit ? "fault-injected" : "fault-not-reached";
+        flat_snapshot(&tb, expect); /* nothing demanded of the storage */
+        if (invariant_violation() >= 0)
+            *ok = false; /* environment-induced: not a violation, but not a clean state either: not explored */
+        touched_restore(&tb, 0);
+        return outcome;
+    }
     case O_SANITISE: {
         touched_restore(&tb, (1u << spec.nr) - 1);
         RegisterAccess a = register_sanitise(&tb.t);
         mc_log("-> %s@%u", acc(a.code), a.address);
         outcome = "sanitise-clean";
-        if (a.code != REG_ACCESS_SUCCESS) {
+        if (g_has_fail) {
+            /* the statement's sanitise clause is about tables without always-fail registers */
+            outcome = "sanitise-unspecified";
+            flat_snapshot(&tb, expect);
+        } else if (a.code != REG_ACCESS_SUCCESS) {
             mc_fail("C05/sanitise-succeeds", "sanitise of a clean table returned %s", acc(a.code));
             *ok = false;
         } else if (touched_mask(&tb) != 0) {
@@ -623,6 +687,7 @@ corruption(int ti, bool thorough)
                 set_reg_words(img, r, C[r][sel]);
             }
             memcpy(k.w, img, sizeof k.w);
+            k.flags = g_init_flags;
         }
         /* one case per choice of the first two words; the rest enumerated inside */
         for (int c0 = 0; c0 < nalpha[0]; ++c0)
@@ -698,6 +763,9 @@ static bool
 setup_table(int ti)
 {
     make_table(ti, &spec);
+    g_has_fail = false;
+    for (int r = 0; r < spec.nr; ++r)
+        g_has_fail |= spec.r[r].ckind == K_FAIL;
     tab_build(&tb, &spec);
     RegisterInit ri = register_init(&tb.t);
     nwords = 0;
@@ -718,6 +786,7 @@ setup_table(int ti)
             }
     memset(g_init_image, 0, sizeof g_init_image);
     flat_snapshot(&tb, g_init_image);
+    g_init_flags = tb.t.flags;
     make_ops();
     return true;
 }
@@ -783,7 +852,8 @@ run_corruption(int ti, bool thorough)
         tab_free(&tb);
         return; /* reported by part 1 */
     }
-    corruption(ti, thorough);
+    if (!g_has_fail)
+        corruption(ti, thorough);
     tab_free(&tb);
 }
 
